@@ -35,6 +35,29 @@ def call(f, *a, **k):
         return Res(False, exc=e)
 
 
+# The forms in which an application may hold "the same" object: the object it built, or a copy of it made with the copy / pickle protocols
+COPY_FORMS = ["copy.copy", "copy.deepcopy", "pickle"]
+
+
+def handed_over(obj, form):
+    """obj as the caller holds it under `form` ("as-is" or one of COPY_FORMS). -> the object, or None where the form does not exist for this
+    kind of object (cryptography's native keys do not pickle; that is no property of joserfc)."""
+    import copy as _copy
+    import pickle as _pickle
+    if form == "as-is":
+        return obj
+    if form == "copy.copy":
+        return _copy.copy(obj)
+    if form == "copy.deepcopy":
+        return _copy.deepcopy(obj)
+    if form == "pickle":
+        try:
+            return _pickle.loads(_pickle.dumps(obj))
+        except (TypeError, _pickle.PicklingError, AttributeError):
+            return None
+    raise ValueError(form)
+
+
 def inner_frame(exc):
     """Innermost joserfc frame of an exception: 'module.function'."""
     tb = traceback.extract_tb(exc.__traceback__)
